@@ -86,7 +86,7 @@ impl Segment {
 //@+    (self.sp_root(mmr_size, bitmap) matches Ok(None)) && r.is_ok() ==> bitmap.is_some() && exists|k: int| 0 <= k && inside(self.sp_last(mmr_size), mmr_size, k)
 //@+        && #[trigger] climbed(*self, *bitmap.unwrap(), mmr_size, k) && r.unwrap().1 == 1 + path(self.sp_last(mmr_size), mmr_size, k)
 //@+        && self.sp_hash_at(path(self.sp_last(mmr_size), mmr_size, k)) == Ok::<Hash, SegmentError>(r.unwrap().0),
-//@   before `let range = (pmmr::n_leaves(`:
+//@   after `pos0 = p0;`:
 //@+    proof { lemma2_to64(); lemma_psize(64); lemma_pow2_unfold(64); lemma_pow2_unfold(63); lemma_ht_small(p0 as nat); lemma_subtree_fits(p0 as nat, 64);
 //@+        lemma_pow2_pos(ht(p0 as nat, 64) + 1); lemma_pow2_unfold(ht(p0 as nat, 64) + 1); lemma_pow2_pos(ht(p0 as nat, 64));
 //@+        lemma_lb_pos((p0 as nat + 3 - pow2(ht(p0 as nat, 64) + 1)) as nat, 64); lemma_lb_le((p0 as nat + 3 - pow2(ht(p0 as nat, 64) + 1)) as nat, 64); }
